@@ -53,7 +53,7 @@ type XObs struct {
 	Pols [][4]int64 `json:"pols"`
 	SGs  []XSG      `json:"sgs"`
 	IGs  []XIG      `json:"igs"`
-	NSh  []int64    `json:"nsh"`
+	NSh  [][2]int64 `json:"nsh"` // (shard id, end time the node holds for it: the running engine's for a loaded shard)
 	NIx  [][2]int64 `json:"nix"` // (index id, end time the running engine holds for it)
 	DSh  []int64    `json:"dsh"`
 	DIx  []int64    `json:"dix"`
@@ -85,6 +85,8 @@ type XTrace struct {
 }
 
 type xnode struct {
+	real   bool   // eng is a full engine with real shards (store traces, until the first restart)
+	ptdir  string // directory of the partition
 	eng    *engine.EngineImpl
 	svc    *retention.Service
 	ondisk map[uint64]bool
@@ -180,7 +182,16 @@ func (e xeng) ExpiredIndexes(nilIndexMap *map[uint64]*meta.IndexDurationInfo) []
 func (e xeng) ExpiredCacheIndexes() []*meta.IndexIdentifier { return nil }
 func (e xeng) DeleteShard(dbn string, ptId uint32, shardID uint64) error {
 	e.w.delSh = append(e.w.delSh, shardID)
-	if e.n().eng.VerifRemoveShard(dbn, ptId, shardID) {
+	if e.n().real {
+		err := e.n().eng.DeleteShard(dbn, ptId, shardID) // the engine's own: close the shard, remove its data and wal directories
+		if err == nil {
+			e.w.goneSh = append(e.w.goneSh, shardID)
+			return nil
+		}
+		if !errno.Equal(err, errno.ShardNotFound) {
+			return err
+		}
+	} else if e.n().eng.VerifRemoveShard(dbn, ptId, shardID) {
 		e.w.goneSh = append(e.w.goneSh, shardID)
 		return nil
 	}
@@ -196,7 +207,16 @@ func (e xeng) ClearIndexCache(db string, ptId uint32, indexID uint64) error { re
 func (w *xworld) addNode() {
 	pt := uint32(len(w.nodes))
 	n := &xnode{ondisk: map[uint64]bool{}, dir: filepath.Join(w.dir, fmt.Sprintf("pt%d", pt))}
-	n.eng = engine.VerifNewRetentionEngineDir(db, pt, n.dir)
+	n.ptdir = n.dir
+	if w.store {
+		// a real engine: shards and indexes are created, kept and deleted on disk by the engine's own code
+		n.ptdir = filepath.Join(n.dir, config.DataDirectory, db, fmt.Sprint(pt))
+		n.eng = engine.VerifNewStoreEngine(n.dir, w.client)
+		n.eng.CreateDBPT(db, pt, false)
+		n.real = true
+	} else {
+		n.eng = engine.VerifNewRetentionEngineDir(db, pt, n.dir)
+	}
 	n.svc = retention.NewService(time.Hour)
 	n.svc.MetaClient = xmeta{w, pt}
 	n.svc.Engine = xeng{w, pt}
@@ -204,7 +224,7 @@ func (w *xworld) addNode() {
 	w.ixspec[pt] = map[uint64]engine.VerifIndexSpec{}
 }
 
-func newXWorld(pols [][4]int64, ptnum int, dir string) *xworld {
+func newXWorld(pols [][4]int64, ptnum int, dir string, store bool) *xworld {
 	w := &xworld{book: map[uint64]xbook{}, ixspec: map[uint32]map[uint64]engine.VerifIndexSpec{}, want: map[int64]int64{},
 		dir: dir, wrongMarks: map[uint64]bool{}}
 	w.data = &meta.Data{Databases: map[string]*meta.DatabaseInfo{}, ClusterPtNum: uint32(ptnum), PtNumPerNode: 1}
@@ -221,6 +241,7 @@ func newXWorld(pols [][4]int64, ptnum int, dir string) *xworld {
 		dbi.RetentionPolicies[rpi.Name] = rpi
 	}
 	w.data.Databases[db] = dbi
+	w.store = store
 	w.client = metaclient.NewClient("", false, 0)
 	w.client.SetCacheData(w.data)
 	for i := 0; i < ptnum; i++ {
@@ -287,20 +308,22 @@ func sorted64(x []uint64) []int64 {
 func (w *xworld) obs(ok bool) XObs {
 	o := XObs{OK: ok}
 	w.catObs(&o)
-	var sh []uint64
-	o.NIx = [][2]int64{}
+	o.NSh, o.NIx = [][2]int64{}, [][2]int64{}
 	for pt, n := range w.nodes {
-		sh = append(sh, n.eng.VerifShardIDs(db, uint32(pt))...)
+		for _, id := range n.eng.VerifShardIDs(db, uint32(pt)) {
+			end, _ := n.eng.VerifShardEnd(db, uint32(pt), id)
+			o.NSh = append(o.NSh, [2]int64{int64(id), end.UnixNano()})
+		}
 		for id := range n.ondisk {
-			sh = append(sh, id)
+			o.NSh = append(o.NSh, [2]int64{int64(id), w.book[id].end})
 		}
 		for _, id := range n.eng.VerifIndexIDs(db, uint32(pt)) {
 			end, _ := n.eng.VerifIndexEnd(db, uint32(pt), id)
 			o.NIx = append(o.NIx, [2]int64{int64(id), end.UnixNano()})
 		}
 	}
+	sort.Slice(o.NSh, func(i, j int) bool { return o.NSh[i][0] < o.NSh[j][0] })
 	sort.Slice(o.NIx, func(i, j int) bool { return o.NIx[i][0] < o.NIx[j][0] })
-	o.NSh = sorted64(sh)
 	// the log of the pass: every id the service asked to delete (the model's victims), shards and indexes
 	o.DSh, o.DIx = sorted64(w.delSh), sorted64(w.delIx)
 	return o
@@ -357,6 +380,15 @@ func (w *xworld) mat(gid uint64, loaded bool) {
 		}
 		tri := rp.TimeRangeInfo(sh.ID) // what the store asks meta for when it creates the shard
 		n := w.nodes[pt]
+		if n.real && loaded {
+			// the store's own path, all of it: EngineImpl.CreateShard -> DBPTInfo.NewShard -> NewMergeSetIndex, shard opened on disk
+			if err := n.eng.CreateShard(db, rp.Name, pt, sh.ID, tri, &meta.MeasurementInfo{EngineType: config.TSSTORE}); err != nil {
+				fmt.Fprintln(os.Stderr, "store could not create the shard:", err)
+				os.Exit(3)
+			}
+			w.book[sh.ID] = xbook{end: tri.TimeRange.EndTime.UnixNano(), rp: rpID(rp.Name), ix: tri.OwnerIndex.IndexID, pt: pt}
+			continue
+		}
 		if w.store {
 			// the store's own path: DBPTInfo.NewMergeSetIndex creates (and opens, on disk) the index unless the partition has it
 			if _, err := n.eng.VerifStoreNewIndex(db, pt, rp.Name, tri, w.client); err != nil {
@@ -408,8 +440,13 @@ func (w *xworld) restart(pt uint32) {
 		}
 		return
 	}
-	n.eng.VerifCloseIndexes(db, pt)
-	n.eng = engine.VerifNewRetentionEngineDir(db, pt, n.dir)
+	if n.real {
+		_ = n.eng.Close()
+		n.real = false
+	} else {
+		n.eng.VerifCloseIndexes(db, pt)
+	}
+	n.eng = engine.VerifNewRetentionEngineDir(db, pt, n.ptdir)
 	for _, rp := range w.rps() {
 		if err := n.eng.VerifOpenIndexes(db, pt, rp.Name, w.client); err != nil {
 			fmt.Fprintln(os.Stderr, "store could not reopen its indexes:", err)
@@ -423,7 +460,11 @@ func (w *xworld) closeAll() {
 		return
 	}
 	for pt, n := range w.nodes {
-		n.eng.VerifCloseIndexes(db, uint32(pt))
+		if n.real {
+			_ = n.eng.Close()
+		} else {
+			n.eng.VerifCloseIndexes(db, uint32(pt))
+		}
 	}
 }
 
@@ -542,7 +583,7 @@ func (w *xworld) tick(ev *XEvent, evIdx int, tr *XTrace) {
 			tr.Skipped++
 			continue
 		}
-		if m, _ := filepath.Glob(filepath.Join(n.dir, "*", "index", fmt.Sprintf("%d_*", x))); len(m) > 0 {
+		if m, _ := filepath.Glob(filepath.Join(n.ptdir, "*", "index", fmt.Sprintf("%d_*", x))); len(m) > 0 {
 			fail("index-dir-left", fmt.Sprintf("index %d reported deleted but its directory still exists", x), map[string]int64{"index": int64(x)}, nil, nil)
 		}
 		for id, p := range shBefore {
@@ -643,8 +684,7 @@ func genXTrace(r *gen.Rand, dir string, store bool) XTrace {
 		}
 		tr.Policies = append(tr.Policies, [4]int64{int64(i), d, sgd, igd})
 	}
-	w := newXWorld(tr.Policies, tr.PtNum, dir)
-	w.store = store
+	w := newXWorld(tr.Policies, tr.PtNum, dir, store)
 	defer os.RemoveAll(dir)
 	defer w.closeAll()
 	n := r.Range(6, 18)
@@ -935,8 +975,7 @@ func runIxReplay(path string) {
 	defer os.RemoveAll(root)
 	for i, in := range ins {
 		tr := XTrace{Mode: "ix", Policies: in.Policies, PtNum: in.PtNum, Oracle: []XFail{}, Store: true}
-		w := newXWorld(tr.Policies, tr.PtNum, filepath.Join(root, fmt.Sprint(i)))
-		w.store = true
+		w := newXWorld(tr.Policies, tr.PtNum, filepath.Join(root, fmt.Sprint(i)), true)
 		for _, ev := range in.Events {
 			if ev.Kind == "mat" && !w.canMat(uint64(ev.GID)) {
 				continue
